@@ -17,7 +17,7 @@ RULE = ('byte strings: all 1- and 2-byte LEB128 encodings exhaustively (each wit
         'values through write->read for uleb/sleb/uleb128p1. non-trivial = multi-byte encoding or negative value; '
         'distinct = (kind, bytes or value)')
 ASSUMPTIONS = ['reference codec vf/gen/leb.py typed from the DEX format specification',
-               '5-byte encodings whose 5th byte overflows 32 bits: only consumed length is checked']
+               '5-byte encodings whose 5th byte overflows 32 bits: only consumed length (and, for sleb128, that the result is an int32) is checked']
 EXHAUSTIVE = False
 
 
@@ -57,6 +57,9 @@ def check_bytes(ctx, kind, data):
              sample={'kind': kind, 'bytes': data.hex(), 'expected': exp, 'consumed': n})
     case = {'mode': 'bytes', 'kind': kind, 'data': data}
     ctx.check(pos == n, 'consumed:%s:len%d' % (kind, n), case, 'consumed %d bytes, encoding has %d' % (pos, n))
+    if kind == 's':
+        # whatever the 5th byte holds, a signed LEB128 read yields "the 32-bit integer": never a value outside int32
+        ctx.check(-(1 << 31) <= got < (1 << 31), 'range:s:len%d' % n, case, 'decoded %r is not a 32-bit signed integer' % got)
     if in_domain:
         ctx.check(got == exp, 'value:%s:len%d' % (kind, n), case, 'decoded %r, expected %r' % (got, exp))
 
